@@ -130,19 +130,30 @@ func ExecNL(op M) (res any) {
 		return NLJ(a.NodeDescendants(id, depth))
 	case "purlType":
 		return NLJ(a.GetNodesByPurlType(asStr(op["t"])))
-	case "byName":
-		return NodesJ(a.GetNodesByName(asStr(op["name"])))
-	case "byID":
-		n := a.GetNodeByID(id)
-		if n == nil {
-			return "nil"
+	case "byName", "byID", "byIdent", "rootNodes":
+		// asked twice on the same list object: a lookup is a question, and the second answer is the
+		// first (a lookup that rearranges the list it searches shows here and in every later lookup)
+		look := func() any {
+			switch asStr(op["op"]) {
+			case "byName":
+				return NodesJ(a.GetNodesByName(asStr(op["name"])))
+			case "byID":
+				n := a.GetNodeByID(id)
+				if n == nil {
+					return "nil"
+				}
+				return NodeJ(n)
+			case "byIdent":
+				// the model receives the resolved enum number; the real call gets a type string
+				return NodesJ(a.GetNodesByIdentifier(asStr(op["tstr"]), asStr(op["v"])))
+			}
+			return NodesJ(a.GetRootNodes())
 		}
-		return NodeJ(n)
-	case "byIdent":
-		// the model receives the resolved enum number; the real call gets a type string
-		return NodesJ(a.GetNodesByIdentifier(asStr(op["tstr"]), asStr(op["v"])))
-	case "rootNodes":
-		return NodesJ(a.GetRootNodes())
+		first := look()
+		if second := look(); !Equal(first, second) {
+			return M{"lookupTwice": []any{first, second}}
+		}
+		return first
 	case "match":
 		if k, ok := op["member"]; ok {
 			// the probe is the list's own node object (a caller matching a list against itself), not a
